@@ -37,18 +37,19 @@ theorem procs_nil_no_chunk {s : State} (h : Inv s) {J : Job}
 job's required components makes the entity's version chunk pass both levels of the job's filter. -/
 theorem pending_procChunk {s : State} (h : Inv s) {j : Nat} {J : Job} {ai : Nat} {a : Arch} {i : Nat}
     {e : Ent} {c : Comp} (hj : s.jobs[j]? = some J) (ha : s.archs[ai]? = some a)
-    (he : a.ents[i]? = some e) (hreq : J.reqOk a = true) (hcc : c ∈ J.check) (hcm : c ∈ a.mask)
+    (he : a.ents[i]? = some e) (hreq : J.reqOk a = true) (hck : J.chunkOk (i / a.cs) = true)
+    (hcc : c ∈ J.check) (hcm : c ∈ a.mask)
     (hp : s.pending j e c = true) : a.procChunk J (i / a.cs) = true := by
   have hcf : c ∈ a.fmask J.check := mem_fmask.mpr ⟨hcc, hcm⟩
   have hrange := chunk_in_range (a := a) he
   have hlt : ∀ L, J.last = some L → L < a.cst (i / a.cs) c :=
-    fun L hl => h.pend j J ai a i e c L hj ha he hreq hcc hcm hp hl
+    fun L hl => h.pend j J ai a i e c L hj ha he hreq hck hcc hcm hp hl
   have hne : a.ents.isEmpty = false := by
     cases hx : a.ents with
     | nil => rw [hx] at he; simp at he
     | cons _ _ => rfl
-  unfold Arch.procChunk Arch.active Job.matchesArch Arch.gMatch Arch.cMatch
-  simp only [hne, hreq, Bool.not_false, Bool.true_and, Bool.and_eq_true, decide_eq_true_eq]
+  unfold Arch.procChunk Arch.sel Arch.active Job.matchesArch Arch.gMatch Arch.cMatch
+  simp only [hne, hreq, hck, Bool.not_false, Bool.true_and, Bool.and_eq_true, decide_eq_true_eq]
   refine ⟨⟨?_, hrange⟩, matchSt_of_lt hcf hlt⟩
   refine matchSt_of_lt hcf (fun L hl => ?_)
   have h1 := hlt L hl
@@ -170,11 +171,12 @@ theorem jobRun_inv {s : State} (h : Inv s) (j : Nat) : Inv (s.jobRun j).1 := by
     · rw [if_neg hp]
       split <;> omega
   · -- pending ⇒ chunk stamp newer than last
-    intro j' J' x a' i1 e1 c L hj' hx h1 hreq hcc hcm hp hl
+    intro j' J' x a' i1 e1 c L hj' hx h1 hreq hck hcc hcm hp hl
     obtain ⟨a, ha, rfl⟩ := harch x a' hx
     rw [runJob_ents] at h1
     rw [runJob_mask] at hcm
     rw [reqOk_runJob] at hreq
+    rw [runJob_cs] at hck
     rw [runJob_cs, runJob_cst]
     rw [hpend] at hp
     rcases hjobs j' J' hj' with ⟨hjj, hold⟩ | ⟨rfl, hnil, rfl⟩ | ⟨rfl, hne, rfl⟩
@@ -192,27 +194,28 @@ theorem jobRun_inv {s : State} (h : Inv s) (j : Nat) : Inv (s.jobRun j).1 := by
           subst this
           simp only [Bool.or_eq_true] at hp
           rcases hp with hp | hp
-          · exact h.pend j' J' x a2 i1 e1 c L hold ha h1 hreq hcc hcm hp hl
+          · exact h.pend j' J' x a2 i1 e1 c L hold ha h1 hreq hck hcc hcm hp hl
           · exfalso; apply hpc
             refine ⟨hp2, ?_⟩
             rw [List.contains_iff_mem, mem_fmask]
             exact ⟨List.contains_iff_mem.mp hp, hcm⟩
         · rw [if_neg hin] at hp
-          exact h.pend j' J' x a i1 e1 c L hold ha h1 hreq hcc hcm hp hl
+          exact h.pend j' J' x a i1 e1 c L hold ha h1 hreq hck hcc hcm hp hl
     · -- the job itself, no work: nothing changed
       have hpc := procs_nil_no_chunk h hnil ha (i1 / a.cs)
       simp only [hpc, Bool.false_eq_true, false_and, if_false]
       simp only [hnil, List.contains_nil, Bool.false_eq_true, if_false] at hp
-      exact h.pend j' J' x a i1 e1 c L hj ha h1 hreq hcc hcm hp hl
+      exact h.pend j' J' x a i1 e1 c L hj ha h1 hreq hck hcc hcm hp hl
     · -- the job itself, with work: every pending entity was processed
       exfalso
       have hreq' : J.reqOk a = true := hreq
+      have hck' : J.chunkOk (i1 / a.cs) = true := hck
       by_cases hin : (s.archs.flatMap (·.processed J)).contains e1 = true
       · rw [if_pos hin] at hp; simp at hp
       · rw [if_neg hin] at hp
         apply hin
         rw [List.contains_iff_mem, hprocs]
-        exact ⟨x, a, i1, ha, h1, pending_procChunk h hj ha h1 hreq' hcc hcm hp⟩
+        exact ⟨x, a, i1, ha, h1, pending_procChunk h hj ha h1 hreq' hck' hcc hcm hp⟩
   · -- newer chunk stamp ⇒ touched
     intro j' J' x a' k c L hj' hx hreq hk hcc hcm hl hlt
     obtain ⟨a, ha, rfl⟩ := harch x a' hx
